@@ -275,7 +275,7 @@ class C13(Check):
         K = 2 if tier == 'quick' else 3
         specs = [S.MAINT(K, n=1, probes=3), S.MAINT(K - 1, probes=3), S.FAN(K - 1), S.BLOCKED_OUT(K),
                  S.MAINT_SCRIPT(K, probes=3), S.MAINT2_SCRIPT(K - 1), S.VALUE0(K - 1), S.BLOCKED_OUT_SCRIPT(K - 1),
-                 S.MAINT3_SCRIPT(K - 1), S.INSTANT(K)]
+                 S.MAINT3_SCRIPT(K - 1), S.INSTANT(K), S.MAINT4_SCRIPT(K - 1)]
         # the cycle monitor rides along: a part whose processing time is stretched or cut by an outage shows up there
         jobs = _line_jobs(specs, ['shutdown', 'wakeup', 'cycle'], tier)
         # a machine created while the line is running: its uptime / utilisation count from its creation
